@@ -1,0 +1,15 @@
+// Copyright 2026 The Go Authors. All rights reserved.
+// Use of this source code is governed by a BSD-style
+// license that can be found in the LICENSE file.
+
+//go:build !verif && !(go1.27 && !http2legacy)
+
+package http2
+
+import "sync"
+
+// wmuMutex is the type of ClientConn.wmu, the lock held while writing to the
+// connection. It is a plain sync.Mutex; the verif build tag (used only by an
+// external simulation harness) substitutes a lock whose waiters block on a
+// channel, see wmu_verif.go.
+type wmuMutex = sync.Mutex
